@@ -5,6 +5,8 @@
 // hook is an empty, inlinable function.
 package verif
 
+import "time"
+
 // On reports whether the hooks are compiled in.
 const On = false
 
@@ -16,3 +18,6 @@ func Yield(point string, key interface{}) {}
 
 // CrashPoint kills the process when selected by the environment.
 func CrashPoint(point string) {}
+
+// LookupHeartbeat overrides nsqd's hard-coded 15 s nsqlookupd heartbeat (0 = keep it).
+func LookupHeartbeat() time.Duration { return 0 }
